@@ -20,6 +20,7 @@ from harness.refs import multipart as mref
 
 LEVEL = "exploration"
 RULES = {
+    "atheris": "thorough tier: Atheris/libFuzzer coverage-guided campaign; bytes are decoded into the same structured case and judged by the same oracle inside the target (half of the jobs start from an empty corpus, half from two small valid inputs)",
     "request": "Hypothesis: abstract requests whose header values come from per-header grammars (media types with parameters, quoted "
     "strings, HTTP dates in three formats with absurd zones/years, URLs with brackets/ports/userinfo, cookie strings, range sets, entity "
     "tags), mutations of those (truncate, duplicate a delimiter, flip a byte, 5000-digit numbers, deep nesting) and raw Latin-1 "
@@ -525,6 +526,21 @@ def parser_case(draw):
     return case
 
 
+
+def oracle_atheris(case) -> Result:
+    """Replay / triage oracle for inputs found by the Atheris campaign: decode the bytes like the fuzz target does."""
+    from fuzz import targets
+
+    inner = targets.CASES["C12"](case["data"])
+    res = oracle_request(inner)
+    if not res.failures:
+        res = oracle_apps(inner)
+    res.label("atheris")
+    return res
+
+
+SUBS["atheris"] = oracle_atheris
+
 def run(rec, only=None):
     quick = rec.tier == "quick"
     mb = 2 if quick else 12
@@ -533,3 +549,8 @@ def run(rec, only=None):
     core.drive_hypothesis(rec, "parsers", parser_case(), oracle_parsers, 3000 if quick else 60000, seed_offset=2, max_buckets=mb)
     for k in SUBS:
         rec.exhaustive[k] = False
+    if not quick:
+        # coverage-guided second engine (Atheris / libFuzzer), same oracle inside the target
+        from fuzz import driver
+
+        driver.campaign(rec, "C12", oracle_atheris, runs=60000, seeds=[b'\x02\x00\x00\x03\x01\x00\x04/a?b', b''], max_total_time=420, jobs=8)
